@@ -367,6 +367,14 @@ def leaves(out, guards=()):
     return [(guards, out)]
 
 
+class SuperProxy(object):
+    def __init__(self, cls, inst):
+        self.cls, self.inst = cls, inst
+
+    def __repr__(self):
+        return "<super of %s>" % self.cls.qualname
+
+
 class Effect(object):
     __slots__ = ("kind", "args", "guards", "line", "fn")
 
@@ -404,6 +412,7 @@ class Spec(object):
         self.callstack = []
         self.notes = []
         self.returns_seen = []
+        self.frames = []
 
     # ------------------------------------------------------------------ helpers
     def fresh(self, prefix, kind=None, info=None):
@@ -689,6 +698,8 @@ class Spec(object):
                 sc = sc.get("__closure__")
             if attr in v.attrs:
                 return v.attrs[attr]
+            if attr == "__class__":
+                return v.cls
             m = v.cls.lookup(attr)
             if isinstance(m, FuncRef):
                 decos = getattr(m, "decorators", [])
@@ -700,6 +711,14 @@ class Spec(object):
             if m is not None:
                 return m
             return Top("noattr %s.%s" % (v.cls.qualname, attr))
+        if isinstance(v, SuperProxy):
+            mro = v.inst.cls.mro()
+            if v.cls in mro:
+                for c in mro[mro.index(v.cls) + 1:]:
+                    if attr in c.ns:
+                        m = c.ns[attr]
+                        return BoundMethod(m, v.inst) if isinstance(m, FuncRef) else m
+            return Top("super has no %s" % attr)
         if isinstance(v, Guard):
             return phi(v.cond, self.getattr(v.a, attr, env), self.getattr(v.b, attr, env))
         if is_sym(v):
@@ -950,6 +969,23 @@ class Spec(object):
                 if isinstance(r, Top) and len(args) == 3:
                     return args[2]
                 return r
+        if isinstance(f, type) and issubclass(f, tuple) and hasattr(f, "_fields"):
+            # a namedtuple class: a plain record, safe to build with symbolic field values
+            try:
+                return f(*args, **kw)
+            except TypeError:
+                raise SpecRaise("TypeError", node)
+        if f is type and len(args) == 1 and isinstance(args[0], Instance):
+            return args[0].cls
+        if f is super:
+            if len(args) == 2 and isinstance(args[0], ClassRef) and isinstance(args[1], Instance):
+                return SuperProxy(args[0], args[1])
+            if not args and self.frames:
+                fr, fenv = self.frames[-1]
+                params = fr.node.args.args
+                if fr.cls is not None and params and isinstance(fenv.get(params[0].arg), Instance):
+                    return SuperProxy(fr.cls, fenv[params[0].arg])
+            return Top("super")
         if f is len and len(args) == 1:
             v = args[0]
             if isinstance(v, (tuple, list, dict, set, frozenset, str, bytes)):
@@ -1105,6 +1141,7 @@ class Spec(object):
         self.depth += 1
         self.fnstack.append(f.qualname)
         self.callstack.append(f.qualname)
+        self.frames.append((f, env))
         try:
             if isinstance(fa, ast.Lambda):
                 return self.ev(fa.body, env, g)
@@ -1113,6 +1150,7 @@ class Spec(object):
             self.depth -= 1
             self.fnstack.pop()
             self.callstack.pop()
+            self.frames.pop()
         return self.outcome_value(out)
 
     def outcome_value(self, out, top=True):
@@ -1371,11 +1409,33 @@ class Spec(object):
     def havoc(self, nodes, env, tag):
         names, attrs = self.assigned_names(nodes)
         carried = {}
+        inplace_only = self.inplace_only_names(nodes)
         for n in sorted(names):
+            old = env.get(n)
             if n in env:
-                carried[n] = env[n]
-            env[n] = Sym("%s:%s" % (tag, n), self.kind_of(env.get(n)))
+                carried[n] = old
+            info = None
+            if isinstance(old, (list, dict, set, bytearray)) and n in inplace_only:
+                info = {"identity": old}  # only augmented in place: still the same object after the loop
+            elif isinstance(old, Sym) and old.info and "identity" in old.info and n in inplace_only:
+                info = {"identity": old.info["identity"]}
+            env[n] = Sym("%s:%s" % (tag, n), self.kind_of(old), info)
         return names
+
+    def inplace_only_names(self, nodes):
+        """names whose every binding inside `nodes` is an augmented assignment (in place for mutable containers)"""
+        aug, other = set(), set()
+        for node in nodes:
+            for n in ast.walk(node):
+                if isinstance(n, ast.AugAssign) and isinstance(n.target, ast.Name):
+                    aug.add(n.target.id)
+                elif isinstance(n, (ast.Assign, ast.AnnAssign, ast.For, ast.NamedExpr, ast.comprehension)):
+                    ts = n.targets if isinstance(n, ast.Assign) else [n.target]
+                    for tg in ts:
+                        for x in ast.walk(tg):
+                            if isinstance(x, ast.Name) and isinstance(x.ctx, ast.Store):
+                                other.add(x.id)
+        return aug - other
 
     def kind_of(self, v):
         if isinstance(v, bool):
@@ -1384,6 +1444,17 @@ class Spec(object):
             return "int"
         if isinstance(v, Sym):
             return v.kind
+        if isinstance(v, Instance):
+            for c in v.cls.mro():
+                for b in c.bases:
+                    if b is int:
+                        return "int"
+                    if b is str:
+                        return "str"
+            return None
+        for t, k in ((tuple, "tuple"), (list, "list"), (dict, "dict"), (bytes, "bytes"), (str, "str"), (float, "float"), (set, "set")):
+            if isinstance(v, t):
+                return k
         return None
 
     def stmt_for(self, s, env, g):
@@ -1436,7 +1507,7 @@ class Spec(object):
         post = dict(head)
         for k in list(post):
             if isinstance(post[k], Sym) and post[k].name.startswith(tag + ":"):
-                post[k] = Sym("after-" + post[k].name, post[k].kind)
+                post[k] = Sym("after-" + post[k].name, post[k].kind, post[k].info)
         if exits:
             # join: the function may return from inside the loop
             res = Fall(post)
@@ -1565,11 +1636,13 @@ class Spec(object):
         env = self.bind(f, list(args), kw)
         self.fnstack.append(f.qualname)
         self.callstack.append(f.qualname)
+        self.frames.append((f, env))
         try:
             out = self.block(f.node.body, env, f.module.ns)
         finally:
             self.fnstack.pop()
             self.callstack.pop()
+            self.frames.pop()
         return out
 
 
